@@ -86,8 +86,9 @@ class PersistentRemoteWorker(PersistentWorker, RemoteWorker):
         while True:
             try:
                 result = recv_msg(self._socket, comment='data: result')
-            except ConnectionClosedError:
-                logger.debug('Connection closed by the remote peer')
+            except Exception:
+                # connection closed, or a message which cannot be rebuilt on this side: the stream ends here
+                logger.debug('Connection closed by the remote peer', exc_info=1)
                 self._socket_closed = True
                 self._result = (False, None)
                 if not last_partial_result_signalled:
